@@ -66,12 +66,49 @@ Definition find_chain_ok (a : alg_cfg) (n : Z) (orc : sort_oracle) : Prop :=
   chain_for n (find_chain a n orc) \/
   (orc <> None /\ find_chain a n orc = Err ($"sortoracle")).
 
-(* the interface to C08: a sequence algorithm that always returns a chain containing the targets and
-   not exceeding the largest of them *)
+(* the interface to C08 (proofs/ContfracProofs.find_sequence_alg_total): a sequence algorithm that
+   always returns a chain containing the targets in which every element is at most 2 or at most some
+   target (heuristic.FindSequence always merges the leader {1,2}, except for the exact list [1]);
+   and that answers [1] for the list [1] *)
 Definition seqalg_ok (s : seqalg) : Prop :=
+  find_sequence_alg s [1] = Ok [1] /\
   forall ts, ts <> [] -> (forall t, In t ts -> 1 <= t) ->
   exists c, find_sequence_alg s ts = Ok c /\ is_chain c /\ (forall t, In t ts -> In t c) /\
+            (forall x, In x c -> x <= 2 \/ exists t, In t ts /\ x <= t).
+
+(* when the targets are exactly [1] or contain something >= 2, nothing exceeds the largest target *)
+Lemma seqalg_ok_strong s : seqalg_ok s ->
+  forall ts, ts <> [] -> (forall t, In t ts -> 1 <= t) -> (ts = [1] \/ exists t, In t ts /\ 2 <= t) ->
+  exists c, find_sequence_alg s ts = Ok c /\ is_chain c /\ (forall t, In t ts -> In t c) /\
             (forall x, In x c -> exists t, In t ts /\ x <= t).
+Proof.
+  intros [H1 H] ts Hne Hpos Hcase. destruct (H ts Hne Hpos) as (c & E & Hc & Hin & Hb).
+  exists c. split; [exact E|]. split; [exact Hc|]. split; [exact Hin|].
+  destruct Hcase as [->|(t0 & Ht0 & H2)].
+  - rewrite H1 in E. injection E as <-. intros x [<-|[]]. exists 1. split; [now left|lia].
+  - intros x Hx. destruct (Hb x Hx) as [Hx2|Ht]; [|exact Ht]. exists t0. split; [exact Ht0|lia].
+Qed.
+
+Lemma ones_or_big ts : sorted_distinct ts -> ts <> [] -> (forall t, In t ts -> 1 <= t) ->
+  ts = [1] \/ exists t, In t ts /\ 2 <= t.
+Proof.
+  intros Hsd Hne Hpos. destruct ts as [|a r]; [congruence|].
+  destruct (Z.eq_dec a 1) as [->|Ha].
+  - destruct r as [|b r']; [now left|]. right. exists b. split; [right; now left|].
+    cbn [sorted_distinct] in Hsd. pose proof (proj1 Hsd b (or_introl eq_refl)). lia.
+  - right. exists a. split; [now left|]. specialize (Hpos a (or_introl eq_refl)). lia.
+Qed.
+
+Lemma all_one_or_big (l : list Z) : (forall z, In z l -> 1 <= z) ->
+  (forall z, In z l -> z = 1) \/ exists t, In t l /\ 2 <= t.
+Proof.
+  induction l as [|a r IH]; intros Hpos; [left; intros z []|].
+  destruct (Z.eq_dec a 1) as [->|Ha].
+  - destruct IH as [IH|(t & Ht & H2)]; [intros z Hz; apply Hpos; now right| |].
+    + left. intros z [<-|Hz]; [reflexivity|now apply IH].
+    + right. exists t. split; [now right|exact H2].
+  - right. exists a. split; [now left|]. specialize (Hpos a (or_introl eq_refl)). lia.
+Qed.
 
 (* the interface to C09: a decomposer that represents x exactly with non-zero dictionary entries *)
 Definition decomp_ok (m : method) : Prop :=
@@ -196,11 +233,14 @@ Proof.
   { intros E. rewrite E in Hval. cbn [conv_sum map tsum] in Hval. lia. }
   assert (Hpos : forall u, In u (conv_sum sum) -> 0 < fst u).
   { intros u Hu. apply in_map_iff in Hu. destruct Hu as (t & <- & Ht). cbn [conv_term fst]. specialize (HDs t Ht). lia. }
-  destruct (Hs (map Z.of_N (dictionary sum))) as (c & Ec & Hc & Hts & Hbound).
-  - destruct sum as [|t r] eqn:Es; [congruence|]. intros E.
+  assert (Htsne : map Z.of_N (dictionary sum) <> []).
+  { destruct sum as [|t r] eqn:Es; [congruence|]. intros E.
     assert (H : In (Z.of_N (D t)) (map Z.of_N (dictionary (t :: r)))) by (apply dictionary_In; exists t; split; [now left|reflexivity]).
-    rewrite E in H. destruct H.
-  - intros z Hz. apply dictionary_In in Hz. destruct Hz as (t & Ht & <-). specialize (HDs t Ht). lia.
+    rewrite E in H. destruct H. }
+  assert (Htspos : forall z, In z (map Z.of_N (dictionary sum)) -> 1 <= z).
+  { intros z Hz. apply dictionary_In in Hz. destruct Hz as (t & Ht & <-). specialize (HDs t Ht). lia. }
+  destruct (seqalg_ok_strong s Hs (map Z.of_N (dictionary sum)) Htsne Htspos) as (c & Ec & Hc & Hts & Hbound).
+  - apply ones_or_big; [|exact Htsne|exact Htspos]. rewrite dictionary_Z. apply unique_sort_spec.
   - rewrite Ec. cbn [obind]. apply reduce_and_build_ok.
     + exact Hc.
     + intros E. apply Hne. destruct sum; [reflexivity|discriminate].
@@ -237,8 +277,10 @@ Qed.
 Theorem seq_ok s n orc : seqalg_ok s -> 1 <= n ->
   (forall c, find_sequence_alg s [n] = Ok c -> asc c) -> find_chain_ok (ASeq s) n orc.
 Proof.
-  intros Hs Hn Hasc. left. destruct (Hs [n] ltac:(discriminate)) as (c & E & Hc & Hin & Hb).
+  intros Hs Hn Hasc. left.
+  destruct (seqalg_ok_strong s Hs [n] ltac:(discriminate)) as (c & E & Hc & Hin & Hb).
   - intros t [<-|[]]. exact Hn.
+  - destruct (Z.eq_dec n 1) as [->|Hn1]; [now left|]. right. exists n. split; [now left|lia].
   - exists c. cbn [find_chain]. split; [exact E|]. split; [exact Hc|].
     (* the largest element of an ascending chain that contains n and is bounded by n *)
     specialize (Hasc c E). destruct Hasc as [_ Hinc].
@@ -395,11 +437,29 @@ Proof.
   { intros t Ht. destruct (Hones _ _ Ed t Ht) as (l & Hl & E).
     assert (Eb : bitlen (Z.of_N (D t)) = l) by (rewrite E; now apply bitlen_ones_pow).
     rewrite Eb. split; [exact Hl|exact E]. }
-  destruct (Hs lengths) as (lc & Elc & Hlc & Hlin & Hlb).
-  - destruct sum as [|t r] eqn:Es; [congruence|]. intros E.
+  assert (Hlne : lengths <> []).
+  { destruct sum as [|t r] eqn:Es; [congruence|]. intros E.
     assert (H : In (Z.of_N (bitlen (Z.of_N (D t)))) lengths) by (apply Hlen_In; exists t; split; [now left|reflexivity]).
-    rewrite E in H. destruct H.
-  - intros z Hz. apply Hlen_In in Hz. destruct Hz as (t & Ht & ->). destruct (Hlen_run t Ht) as [H1 _]. lia.
+    rewrite E in H. destruct H. }
+  assert (Hlpos : forall z, In z lengths -> 1 <= z).
+  { intros z Hz. apply Hlen_In in Hz. destruct Hz as (t & Ht & ->). destruct (Hlen_run t Ht) as [H1 _]. lia. }
+  destruct (seqalg_ok_strong s Hs lengths Hlne Hlpos) as (lc & Elc & Hlc & Hlin & Hlb).
+  - destruct (all_one_or_big lengths Hlpos) as [Hall|Hbig]; [left|right; exact Hbig].
+    (* every run has length 1, so the dictionary is {1} *)
+    assert (Hts1 : forall z, In z (map Z.of_N (dictionary sum)) -> z = 1).
+    { intros z Hz. apply dictionary_In in Hz. destruct Hz as (t & Ht & <-). destruct (Hlen_run t Ht) as [_ E].
+      assert (Hb1 : Z.of_N (bitlen (Z.of_N (D t))) = 1) by (apply Hall, Hlen_In; now exists t).
+      rewrite E, Hb1. reflexivity. }
+    assert (Hd1 : map Z.of_N (dictionary sum) = [1]).
+    { destruct (ones_or_big (map Z.of_N (dictionary sum))) as [E|(t & Ht & H2)]; [| | |exact E|].
+      - rewrite dictionary_Z. apply unique_sort_spec.
+      - destruct sum as [|t r] eqn:Es; [congruence|]. intros E.
+        assert (H : In (Z.of_N (D t)) (map Z.of_N (dictionary (t :: r)))) by (apply dictionary_In; exists t; split; [now left|reflexivity]).
+        rewrite E in H. destruct H.
+      - intros z Hz. rewrite (Hts1 z Hz). lia.
+      - rewrite (Hts1 t Ht) in H2. lia. }
+    unfold lengths. destruct (dictionary sum) as [|a [|b r]]; cbn [map] in Hd1; try discriminate.
+    injection Hd1 as Ea. assert (a = 1%N) by lia. subst a. reflexivity.
   - rewrite Elc. cbn [obind].
     assert (Hsmall : forall l, In l lc -> l < 2 ^ 64).
     { intros l Hl. destruct (Hlb l Hl) as (z & Hz & Hlz). apply Hlen_In in Hz. destruct Hz as (t & Ht & ->).
@@ -430,7 +490,8 @@ Qed.
 (* every configuration, by structure; the ensemble *)
 
 (* a sequence algorithm whose chains come out ascending (true of both families; interface to C08) *)
-Definition seqalg_asc (s : seqalg) : Prop := forall ts c, find_sequence_alg s ts = Ok c -> asc c.
+Definition seqalg_asc (s : seqalg) : Prop :=
+  forall ts c, ts <> [] -> (forall t, In t ts -> 1 <= t) -> find_sequence_alg s ts = Ok c -> asc c.
 
 (* what a configuration needs from C08 (sequence algorithm) and C09 (decomposer) *)
 Fixpoint cfg_hyps (a : alg_cfg) : Prop :=
@@ -450,7 +511,8 @@ Proof.
   - destruct H. now apply dict_ok.
   - destruct H as (H1 & H2 & H3). now apply runs_ok.
   - apply opt_ok. now apply IH.
-  - destruct H as [H1 H2]. apply seq_ok; [exact H1|exact Hn|]. intros c. apply H2.
+  - destruct H as [H1 H2]. apply seq_ok; [exact H1|exact Hn|]. intros c. apply H2; [discriminate|].
+    intros t [<-|[]]. exact Hn.
 Qed.
 
 Lemma ensemble_members a : In a ensemble ->
@@ -480,6 +542,34 @@ Qed.
 (* the ensemble as data *)
 Lemma ensemble_length : length ensemble = 200%nat.
 Proof. vm_compute. reflexivity. Qed.
+
+(* ------------------------------------------------------------------------------------------ *)
+(* discharging the C08 interface: every configuration that C08 proves total *)
+
+From AV Require Import proofs.ContfracProofs.
+
+Lemma find_sequence_alg_one a : find_sequence_alg a [1] = Ok [1].
+Proof. destruct a as [hs|s]; [reflexivity|]. destruct s; vm_compute; reflexivity. Qed.
+
+Theorem seqalg_total_ok a : seqalg_total a = true -> seqalg_ok a /\ seqalg_asc a.
+Proof.
+  intros Ht. split; [split; [apply find_sequence_alg_one|]|].
+  - intros ts Hne Hpos.
+    destruct (find_sequence_alg_total a Ht ts Hne) as (c & E & Hc & _ & Hin & Hb).
+    + intros t H. specialize (Hpos t H). lia.
+    + exists c. auto.
+  - intros ts c Hne Hpos E.
+    pose proof (find_sequence_alg_sound a ts Hne) as H. rewrite E in H. apply H.
+    intros t Ht'. specialize (Hpos t Ht'). lia.
+Qed.
+
+Lemma ensemble_seqalgs_total : forall s, In s ensemble_seqalgs -> seqalg_total s = true.
+Proof.
+  intros s H. vm_compute in H. repeat (destruct H as [<-|H]; [reflexivity|]). destruct H.
+Qed.
+
+Lemma ensemble_seqalgs_ok : forall s, In s ensemble_seqalgs -> seqalg_ok s.
+Proof. intros s H. apply seqalg_total_ok, ensemble_seqalgs_total, H. Qed.
 
 (* ------------------------------------------------------------------------------------------ *)
 (* the statements of props/C01.v in unfolded form *)
@@ -518,15 +608,41 @@ Qed.
 
 Theorem ensemble_partial :
   (forall m, In m ensemble_decomposers -> decomp_ok m) -> runlength_ones ->
-  (forall s, In s ensemble_seqalgs -> seqalg_ok s) ->
   forall a, In a ensemble ->
   forall n orc, 1 <= n -> Z.of_N (bitlen n) < 2 ^ 64 ->
   (exists r, execute a n orc = Ok r /\ good_result_u n r) \/
   (orc <> None /\ execute a n orc = Ok (mkResult (Some ($"sortoracle")) [] [])).
-Proof. intros Hd Ho Hs a Ha. apply any_configuration. now apply ensemble_hyps. Qed.
+Proof. intros Hd Ho a Ha. apply any_configuration. apply ensemble_hyps; auto using ensemble_seqalgs_ok. Qed.
 
 Theorem ensemble_shape : length ensemble = 200%nat /\
   forall a, In a ensemble ->
     (exists m s, a = AOpt (ADict m s) /\ In m ensemble_decomposers /\ In s ensemble_seqalgs) \/
     (exists s, a = AOpt (ARuns s) /\ In s ensemble_seqalgs).
 Proof. split; [exact ensemble_length|exact ensemble_members]. Qed.
+
+(* the configurations of the property's list, with and without the optimisation wrapper *)
+Definition at_u (a : alg_cfg) : Prop :=
+  forall n orc, 1 <= n -> Z.of_N (bitlen n) < 2 ^ 64 ->
+  (exists r, execute a n orc = Ok r /\ good_result_u n r) \/
+  (orc <> None /\ execute a n orc = Ok (mkResult (Some ($"sortoracle")) [] [])).
+
+Theorem sequence_configurations s : seqalg_total s = true ->
+  forall a, a = ASeq s \/ a = AOpt (ASeq s) -> at_u a.
+Proof.
+  intros Ht a Ha. unfold at_u. apply any_configuration. destruct (seqalg_total_ok s Ht) as [H1 H2].
+  destruct Ha as [->| ->]; cbn [cfg_hyps]; auto.
+Qed.
+
+Theorem dictionary_configurations m s : decomp_ok m -> seqalg_total s = true ->
+  forall a, a = ADict m s \/ a = AOpt (ADict m s) -> at_u a.
+Proof.
+  intros Hm Ht a Ha. unfold at_u. apply any_configuration. destruct (seqalg_total_ok s Ht) as [H1 H2].
+  destruct Ha as [->| ->]; cbn [cfg_hyps]; auto.
+Qed.
+
+Theorem runs_configurations s : decomp_ok (RunLength 0) -> runlength_ones -> seqalg_total s = true ->
+  forall a, a = ARuns s \/ a = AOpt (ARuns s) -> at_u a.
+Proof.
+  intros Hm Ho Ht a Ha. unfold at_u. apply any_configuration. destruct (seqalg_total_ok s Ht) as [H1 H2].
+  destruct Ha as [->| ->]; cbn [cfg_hyps]; auto.
+Qed.
